@@ -7,6 +7,7 @@ import Rq.Model.Sparse
 import Rq.Model.Cache
 import Rq.Model.PiSolver
 import Rq.Model.SlabBytes
+import Rq.Model.PiCodec
 /-! Driver handlers for the codec engine (E3). I/O glue around the model functions. -/
 namespace Rq.DriverE3
 open Rq Rq.Io
@@ -101,6 +102,31 @@ def handle (w : List String) : Option String :=
       | none => err
       | some l => if l.isEmpty then "-" else ",".intercalate (l.map fun (a, b) => s!"{a}-{b}")
   -- block decoder history: batches separated by '/'
+  | ["decblkpi", be, k, t, n, al, batches] => some <|
+      -- the same history through the code-shaped pipeline (modelled five-phase solver, no oracle)
+      match BlockDec.new? 0 ⟨nat k * nat t, nat t, 1, nat n, nat al⟩ (nat k * nat t) with
+      | none => err
+      | some d0 =>
+        let sv := piSolver (be == "sparse")
+        let step (st : Option BlockDec × List String) (b : String) : Option BlockDec × List String :=
+          match st.1 with
+          | none => (none, st.2 ++ [err])
+          | some d =>
+            match d.decode sv (parsePkts b 0) with
+            | none => (none, st.2 ++ [err])
+            | some (d', r, _) => (some d', st.2 ++ [showRes r])
+        let (_, outs) := (batches.splitOn "/").foldl step (some d0, [])
+        " ".intercalate outs
+  | ["encpi", be, t, n, al, h, esis] => some <|
+      let data := unhexList h
+      match BlockEnc.new? (piSolver (be == "sparse")) 0 ⟨data.length, nat t, 1, nat n, nat al⟩ data with
+      | none => err
+      | some e =>
+        let outs := (natList esis).mapM fun esi =>
+          if esi < e.k then some (e.src.getD esi []) else (e.repairPacket (esi - e.k)).map (·.data)
+        match outs with
+        | none => err
+        | some l => ",".intercalate (l.map hexList)
   | ["decblk", k, t, n, al, batches] => some <|
       match BlockDec.new? 0 ⟨nat k * nat t, nat t, 1, nat n, nat al⟩ (nat k * nat t) with
       | none => err
